@@ -167,11 +167,37 @@ func init() {
 			return nil
 		},
 
+		"internal/reflectlite.TypeOf": func(e *Exec, _ *frame, fn *ssa.Function, a []Value) Value {
+			itf := a[0].(Iface)
+			if itf.T == nil {
+				return Iface{}
+			}
+			t := itf.T
+			h := map[string]Value{
+				"Comparable": &Opaque{Kind: "func", Data: func(e *Exec, _ []Value) Value { return e.c.Bool(types.Comparable(t)) }},
+				"String":     &Opaque{Kind: "func", Data: func(e *Exec, _ []Value) Value { return e.mkStr(t.String()) }},
+			}
+			return Iface{T: fn.Signature.Results().At(0).Type(), V: &Opaque{Kind: "rtype", Name: t.String(), Data: h}}
+		},
+
 		// --- regexp: compiled patterns are engine objects (matcher: regexp.go) --
 		"regexp.MustCompile": func(e *Exec, _ *frame, _ *ssa.Function, a []Value) Value {
 			return &Opaque{Kind: "regexp", Name: argStr(e, a[0])}
 		},
 		"(*regexp.Regexp).FindSubmatch": regexpFindSubmatch,
+
+		// --- time: the clock is an environment stub ---------------------------
+		// time.Unix(sec, nsec) keeps (sec, nsec); Since/Until return a FREE
+		// duration per call (named clock.since#k / clock.until#k): the relation
+		// between an event's created_at and "now" is deliberately not modelled.
+		"time.Unix": func(e *Exec, _ *frame, _ *ssa.Function, a []Value) Value {
+			return Struct{a[1].(*smt.Term), a[0].(*smt.Term), (*Value)(nil)}
+		},
+		"time.Now": func(e *Exec, _ *frame, _ *ssa.Function, a []Value) Value {
+			return Struct{e.c.BV(0, 64), e.freshInt("clock.now", 64), (*Value)(nil)}
+		},
+		"time.Since": func(e *Exec, _ *frame, _ *ssa.Function, a []Value) Value { return e.freshInt("clock.since", 64) },
+		"time.Until": func(e *Exec, _ *frame, _ *ssa.Function, a []Value) Value { return e.freshInt("clock.until", 64) },
 
 		// --- misc library ---------------------------------------------------
 		"github.com/google/uuid.NewString": func(e *Exec, _ *frame, _ *ssa.Function, a []Value) Value {
